@@ -2,12 +2,13 @@
 import copy
 import pickle
 from engine.api import Harness
-from engine.symlib import pick, site, reset, wit, note, untraced, reraise_internal
+from engine.symlib import pick, site, reset, wit, note, untraced, reraise_internal, known
 from awesomeyaml.builder import Builder
 from awesomeyaml.eval_context import EvalContext
 from awesomeyaml.nodes.node import ConfigNode
 from awesomeyaml.nodes.composed import ComposedNode
 from harness.C18 import SHAPES, KINDS, PAIRS, _flags, _plain, PROBES
+from harness.C18 import describe as describe_effective
 
 PROPERTY = {
     'id': 'C19',
@@ -15,8 +16,10 @@ PROPERTY = {
     'assumptions': ['metadata codec stub for flag sites (native replays use the real pickle codec)',
                     'for the pickle round trip flags are realised before pickling (C-level pickler), so there the solver certifies exhaustive case analysis over the flag values'],
     'bounds': {'trees': 'the 9 two-site shapes and 14 node kinds of C18 (mappings, lists, scalars, null, empty containers, function nodes, xref/eval/fstr/import/path/required/clear/append/extend/prev), 2 symbolic flag sites, user metadata',
-               'mutations': '8 (metadata edit on a leaf / on a container, item set, append, delete, flag change, nested value edit, clear) applied to the copy or to the original (symbolic)'},
-    'outside': ['trees built by hand with shared sub-nodes (aliases)', 'objects inside !call results'],
+               'mutations': '8 (metadata edit on a leaf / on a container, item set, append, delete, flag change, nested value edit, clear) applied to the copy or to the original (symbolic)',
+               'aliases': '3 documents with YAML anchors/aliases (shared node under 2..3 entries, nested anchors), 2 mutations each',
+               },
+    'outside': ['sharing created by hand through the API (beyond what the loader produces for aliases)', 'objects inside !call results'],
     'per_split_timeout': {'quick': 600, 'thorough': 1800},
     'wall_budget': {'quick': 1500, 'thorough': 7000},
 }
@@ -195,6 +198,107 @@ def c19_copy(split, pa1, va1, pa2, va2, pva, pb1, vb1, pb2, vb2, pvb, mdb, mut, 
     return True
 
 
+ALIAS_DOCS = [
+    # YAML anchors / aliases: the loader puts ONE node object under several entries
+    'defaults: &d %(A)s {opt: {lr: 1, sched: [10, 20]}, k: 2}\ntrain: *d\nother: {o: *d, p: 1}\n',
+    'base: %(A)s {l: &l [1, {m: 2}], again: *l}\ncp: [*l, 3]\n',
+    'x: &s %(A)s {inner: &i {v: [1]}}\ny: {first: *i, second: *s}\n',
+]
+ALIAS_MUTS = [('defaults.opt.sched', 'append'), ('train.opt', 'set'), ('base.l', 'append'), ('cp[0][1]', 'set'), ('x.inner.v', 'append'), ('y.first', 'set')]
+
+
+def _sharing(root):
+    """partition of the node paths by node identity"""
+    groups = {}
+    for p, n in nodes_of(root):
+        groups.setdefault(id(n), []).append(p)
+    return sorted(sorted(g) for g in groups.values())
+
+
+def _node_at(root, path):
+    return root.ayns.get_node(path)
+
+
+def c19_alias(split, pa1, va1, pa2, va2, pva, mi, side):
+    """a tree in which one node is reachable through several entries (YAML alias): the copy has the same sharing
+    structure and the same mutation through one entry shows through the others in the copy as in the original"""
+    reset()
+    how = split['how']
+    fa = _flags(split['pairA'], pa1, va1, pa2, va2, pva)
+    if how == 'pickle':
+        for k in list(fa):
+            fa[k] = (pick(fa[k] + 1, 3) - 1) if k == 'priority' else bool(fa[k])
+    A = site('A', fa) if fa else ''
+    text = ALIAS_DOCS[split['doc']] % {'A': A}
+    mi = pick(mi, 2)
+    mpath, mkind = ALIAS_MUTS[2 * split['doc'] + mi]
+    note(text=text, how=how, mutation=(mpath, mkind))
+    try:
+        orig = _parse(text)
+        s0 = _sharing(orig)
+        d0 = describe_effective(orig)
+        if how == 'deepcopy':
+            cp = copy.deepcopy(orig)
+        else:
+            with untraced():
+                cp = pickle.loads(pickle.dumps(orig))
+        s1 = _sharing(cp)
+        d1 = describe_effective(cp)
+    except Exception as e:
+        reraise_internal(e)
+        note(error=repr(e)[:300])
+        return False
+    if any(len(g) > 1 for g in s0):
+        wit('shared_in_original')
+    if d0 != d1:
+        # effective flags (what merging and evaluation see), not raw slots: the raw implicit slots of a node that sits under
+        # several parents record whichever parent attached it last, which a copy may legitimately normalise
+        for x, y in zip(d0, d1):
+            if x != y:
+                note(differs_at=repr(x[0]), original=repr(x), copy=repr(y))
+                break
+        # known finding (specific signature): the node aliased as &i sits under parents handing down different delete flags
+        # (x is !merge, y is plain); the original keeps the flag of the parent that attached it last, the pickle copy
+        # re-derives it from the first: only the effective delete flag of the lists below that node differs
+        if how == 'pickle' and split['doc'] == 2 and fa.get('delete') is False and len(d0) == len(d1):
+            diffs = [(x, y) for x, y in zip(d0, d1) if x != y]
+            if all(x[0] in ('x.inner.v', 'y.first.v', 'y.second.inner.v') and x[:5] == y[:5] and x[6:] == y[6:] for x, y in diffs) \
+                    and known('C19-alias-two-parents'):
+                return True
+        return False
+    if s0 != s1:
+        note(sharing_original=repr(s0), sharing_copy=repr(s1))
+        return False
+    if all_node_ids(orig) & all_node_ids(cp):
+        note(shared='a node object is shared between copy and original')
+        return False
+    wit('equal')
+    # the same mutation on both trees: both must still look alike (it shows through every alias, or through none)
+    for tree in ((orig, cp) if side else (cp, orig)):
+        n = _node_at(tree, mpath)
+        if mkind == 'append':
+            n.append(30)
+        else:
+            n['added'] = 5
+    if _plain(orig) != _plain(cp):
+        note(after_mutation_original=repr(_plain(orig)), after_mutation_copy=repr(_plain(cp)))
+        return False
+    if _sharing(orig) != _sharing(cp):
+        note(sharing_after='differs')
+        return False
+    wit('mutated_alike')
+    return True
+
+
+def _splits_alias(tier):
+    out = []
+    for how in ('deepcopy', 'pickle'):
+        for doc in range(len(ALIAS_DOCS)):
+            for pa in (('pd',) if tier == 'quick' else ('pd', 'ns', 'dn', 'ps')):
+                out.append({'how': how, 'doc': doc, 'pairA': pa})
+    return out
+
+
 def _splits(tier):
     out = []
     for how in ('deepcopy', 'pickle'):
@@ -222,6 +326,10 @@ PARAMS = [('pa1', 'bool'), ('va1', 'bool'), ('pa2', 'bool'), ('va2', 'bool'), ('
           ('mut', 'int', 0, len(MUTS) - 1), ('side', 'bool')]
 
 HARNESSES = {
+    'c19_alias': Harness('c19_alias', c19_alias,
+                         [('pa1', 'bool'), ('va1', 'bool'), ('pa2', 'bool'), ('va2', 'bool'), ('pva', 'int', -1, 1), ('mi', 'int', 0, 1), ('side', 'bool')],
+                         _splits_alias, doc='3 documents with YAML anchors/aliases (one node under several entries): same sharing structure in the copy, same effect of a mutation through one entry',
+                         witnesses=('equal', 'shared_in_original', 'mutated_alike')),
     'c19_copy': Harness('c19_copy', c19_copy, PARAMS, _splits,
                         doc='deepcopy (symbolic flags) / pickle (flags concretised by selectors) of parsed trees; node-wise equality incl. raw flags, disjoint identities, probe merges, mutation isolation',
                         witnesses=('equal', 'isolated')),
